@@ -53,6 +53,16 @@ class Opaque:
     return f"Opaque({self.why})"
 
 
+class SqrtV(Opaque):
+  """math.sqrt(<int term>): an abstracted float that remembers its argument, so that int(math.sqrt(x)) can be given
+  the (rounding-proof) facts r >= 0, x >= 1 => 1 <= r <= x."""
+  __slots__ = ("arg",)
+
+  def __init__(self, arg):
+    Opaque.__init__(self, "math.sqrt(int)")
+    self.arg = arg
+
+
 class Ref:
   """Opaque symbolic reference (protobuf message, storage object): a term of the uninterpreted sort RefSort.
   Attribute reads become applications of uninterpreted functions; `cls` is only a label."""
